@@ -1,32 +1,49 @@
 ------------------------------- MODULE Refine -------------------------------
 (***************************************************************************)
-(* L3: Refine1 - the emitted circuit refines the source semantics.         *)
+(* L3: Refine1 / Refine2 - the emitted circuit(s) refine the source        *)
+(* semantics and, for twin builds, each other.                             *)
 (*                                                                         *)
-(* Product of Circuit(BP) (L1) with the Facto interpreter (L2) for every   *)
+(* Product of Circuit(BP) (L1, one or two blueprints in lock-step) with    *)
+(* the Facto interpreter and its abstract memory machine (L2) for every    *)
 (* compile record of the batch.  Data.tla supplies                         *)
-(*   BPs   blueprints exactly as emitted                                   *)
-(*   Recs  << [id, stmts, u, mode, ...] >>   u = index of the blueprint    *)
+(*   BPs     blueprints exactly as emitted                                 *)
+(*   Recs    << [id, stmts, u, mode, (u2, stmts2, pin2), (cins)] >>        *)
+(*           u / u2 = blueprint indices; stmts2 = twin program (defaults   *)
+(*           to stmts); pin2 = values of inputs only the twin declares     *)
+(*   Clauses the clause names this run judges (one property = its clauses) *)
 (*   DomCap, Seed  bound on valuations per record / subset rotation        *)
-(* Actions: Tick (all combinators update synchronously) and ChangeInput    *)
-(* (environment changes one input; only when settled; only for records     *)
-(* with mode = "hist").  Every clause of every property is a MONITOR: an   *)
-(* invariant that prints <<"FAIL", id, clause, ...>> and stays TRUE, so    *)
-(* one failing record does not hide the others; --replay re-runs a single  *)
-(* record with Strict = TRUE which makes the same clauses real invariants. *)
+(*   Strict  FALSE: clauses are MONITORS (print <<"FAIL",..>>, stay TRUE,  *)
+(*           so one failing record does not hide the others);              *)
+(*           TRUE (--replay): the same clauses are real invariants         *)
+(* Actions: Tick (all combinators of all units update synchronously) and   *)
+(* ChangeInput (environment changes ONE input and holds it; enabled only   *)
+(* when settled; only for records with mode = "hist").                     *)
 (***************************************************************************)
-EXTENDS Circuit, Facto, KnownFindings, TLCExt, SequencesExt
+EXTENDS Circuit, Facto, KnownFindings, Proto, TLCExt, SequencesExt
 
-VARIABLES v_pid, v_val, v_out, v_tick, v_settled, v_mem
-vars == <<v_pid, v_val, v_out, v_tick, v_settled, v_mem>>
+VARIABLES v_pid, v_val, v_out, v_tick, v_settled, v_mem, v_lost
+vars == <<v_pid, v_val, v_out, v_tick, v_settled, v_mem, v_lost>>
 
 PIDs == 1..Len(Recs)
-U(p) == Recs[p].u
 Stmts(p) == Recs[p].stmts
+\* units of a record: the build of P, and optionally a twin build
+HasTwin(p) == "u2" \in DOMAIN Recs[p]
+UnitsOf(p) == IF HasTwin(p) THEN <<Recs[p].u, Recs[p].u2>> ELSE <<Recs[p].u>>
+StmtsOf(p, k) == IF k = 2 /\ "stmts2" \in DOMAIN Recs[p] THEN Recs[p].stmts2 ELSE Recs[p].stmts
+U(p) == Recs[p].u
+Mode(p) == IF "mode" \in DOMAIN Recs[p] THEN Recs[p].mode ELSE "val"
+Active(clause) == clause \in Clauses
 
 (* ------------------------- inputs and domains -------------------------- *)
+(* environment-controlled quantities of a record:                          *)
+(*   declared inputs of P (`Signal n = ("t", dv);`)                        *)
+(*   contents of read entities: record field cins = <<[ent, item]>>        *)
 InStmtsT == [p \in PIDs |-> SelectSeq(Stmts(p), LAMBDA s : s.k = "in")]
-NIn(p) == Len(InStmtsT[p])
+CInsT == [p \in PIDs |-> IF "cins" \in DOMAIN Recs[p] THEN Recs[p].cins ELSE <<>>]
+NDecl(p) == Len(InStmtsT[p])
+NIn(p) == NDecl(p) + Len(CInsT[p])
 BaseB == {MinI, -65537, -7, -1, 0, 1, 2, 5, 65536, MaxI}
+ContB == {0, 1, 7, 100}
 \* literals the program compares against / computes with: their neighbours are boundary values too
 RECURSIVE LitsE(_)
 LitsE(e) == CASE e.k = "num" -> {e.v}
@@ -42,35 +59,62 @@ LitsS(s) == CASE s.k \in {"int", "let", "expr", "prop"} -> LitsE(s.e)
               [] s.k = "write" -> LitsE(s.e) \cup (IF s.mode = "plain" THEN {} ELSE LitsE(s.a)) \cup (IF s.mode \in {"set_reset", "reset_set"} THEN LitsE(s.b) ELSE {})
               [] s.k \in {"func", "for"} -> UNION {LitsS(s.body[i]) : i \in DOMAIN s.body}
               [] OTHER -> {}
-Near(c) == {x \in {c - 1, c, c + 1} : TRUE}
+Near(c) == {c - 1, c, c + 1}
 LitDom(p) == UNION {Near(c) : c \in {c \in UNION {LitsS(Stmts(p)[i]) : i \in DOMAIN Stmts(p)} : c > -1000000 /\ c < 1000000}}
+\* a record may carry its own domain (histories use trimmed domains: thresholds +-1, a negative, MaxI)
 FullDomT == [p \in PIDs |-> IF "dom" \in DOMAIN Recs[p] THEN SeqSet(Recs[p].dom) ELSE BaseB \cup LitDom(p)]
-\* when |D|^k exceeds DomCap every input gets a Seed-rotated subset (always a subset of the full domain)
 RECURSIVE IPow(_, _)
 IPow(b, e) == IF e = 0 THEN 1 ELSE IF b > 100000 THEN b ELSE b * IPow(b, e - 1)
 SubSize(d, k) == LET S == {m \in 1..d : IPow(m, k) <= DomCap} IN IF S = {} THEN 1 ELSE Max(S)
 SortedT == [p \in PIDs |-> SetToSortSeq(FullDomT[p], <)]
+\* when |D|^k exceeds DomCap every input gets a Seed-rotated subset (always a subset of the full domain)
 DomOf(p, i) ==
-  LET D == SortedT[p]  d == Len(D)  k == NIn(p) IN
-  IF k = 0 \/ IPow(d, k) <= DomCap THEN FullDomT[p]
-  ELSE LET m == SubSize(d, k)  step == d \div m  off == Seed + 3 * i
-       IN {D[((off + j * step) % d) + 1] : j \in 0..(m - 1)}
+  IF i > NDecl(p) THEN ContB
+  ELSE LET D == SortedT[p]  d == Len(D)  k == NIn(p) IN
+       IF IPow(d, k) <= DomCap THEN FullDomT[p]
+       ELSE LET m == SubSize(d, k)  step == d \div m  off == Seed + 3 * i
+            IN {D[((off + j * step) % d) + 1] : j \in 0..(m - 1)}
 DomT == [p \in PIDs |-> [i \in 1..NIn(p) |-> DomOf(p, i)]]
-ValsOf(p) == {vv \in [1..NIn(p) -> Int] : FALSE}  \* (unused; valuations are built by Init)
-ValFn(p, vv) == [n \in {InStmtsT[p][i].n : i \in 1..NIn(p)} |-> vv[CHOOSE i \in 1..NIn(p) : InStmtsT[p][i].n = n]]
+
+\* run-time value of every declared input of program text `ss` under valuation vv of P's inputs
+InNames(ss) == {ss[i].n : i \in {i \in DOMAIN ss : ss[i].k = "in"}}
+DeclIdx(p, n) == IF \E i \in 1..NDecl(p) : InStmtsT[p][i].n = n THEN CHOOSE i \in 1..NDecl(p) : InStmtsT[p][i].n = n ELSE 0
+ValFn(p, k, vv) ==
+  [n \in InNames(StmtsOf(p, k)) |->
+     IF DeclIdx(p, n) # 0 THEN vv[DeclIdx(p, n)]
+     ELSE IF "pin2" \in DOMAIN Recs[p] /\ n \in DOMAIN Recs[p].pin2 THEN Recs[p].pin2[n] ELSE 0]
+\* contents of read entities: entity name -> bundle
+ContFn(p, vv) ==
+  LET C == CInsT[p]
+      names == {C[j].ent : j \in DOMAIN C}
+  IN [n \in names |-> [t \in {C[j].item : j \in {j \in DOMAIN C : C[j].ent = n}} |->
+                          vv[NDecl(p) + (CHOOSE j \in DOMAIN C : C[j].ent = n /\ C[j].item = t)]]]
+
+(* ------------------------------ expectation ----------------------------- *)
+World(p, k, vv, mem) == Run(StmtsOf(p, k), ValFn(p, k, vv), ContFn(p, vv), mem)
+
+\* placed entity `ent` (interpreter record) in unit u: same prototype, centre = top-left tile + footprint / 2
+EntAt(u, ent) == {e \in Ids(u) : Ents(u)[e].name = ent.proto
+                                 /\ Ents(u)[e].position.x.f2 = 2 * ent.x + FootW(ent.proto)
+                                 /\ Ents(u)[e].position.y.f2 = 2 * ent.y + FootH(ent.proto)}
 
 \* the constant combinator that carries declared input n (labelled "(input)") and its signal
-InEntsT == [p \in PIDs |-> [i \in 1..NIn(p) |-> ByRole(U(p), "input", InStmtsT[p][i].n)]]
 InSig(u, e) == LET F == FilterSeq(u, e) IN IF Len(F) >= 1 THEN Get(F[1], "name", NoSig) ELSE NoSig
-\* environment override: every input combinator emits the chosen run-time value on its own signal
-InpOf(p, vv) ==
-  LET u == U(p)
-      E == UNION {InEntsT[p][i] : i \in 1..NIn(p)}
-      idx(e) == CHOOSE i \in 1..NIn(p) : e \in InEntsT[p][i]
-  IN [e \in E |-> Single(u, InSig(u, e), vv[idx(e)])]
+\* environment override of unit k: every input combinator emits the chosen run-time value on its own signal,
+\* every read entity emits its contents on both of its circuit connectors
+InpOf(p, k, vv) ==
+  LET u == UnitsOf(p)[k]
+      vf == ValFn(p, k, vv)
+      E == {e \in Ids(u) : Get(Desc(u, e), "role", "") = "input" /\ Get(Desc(u, e), "var", "") \in DOMAIN vf}
+      base == [e \in E |-> Single(u, InSig(u, e), vf[Desc(u, e).var])]
+  IN IF Len(CInsT[p]) = 0 THEN base
+     ELSE LET cf == ContFn(p, vv)
+              w0 == World(p, k, vv, <<>>)
+              CE == {i \in DOMAIN w0.ents : w0.ents[i].n \in DOMAIN cf}
+              entOf(i) == EntAt(u, w0.ents[i])
+              bagOf(b) == [s \in SigsT[u] |-> IF s \in DOMAIN b THEN b[s] ELSE 0]
+          IN base @@ [e \in UNION {entOf(i) : i \in CE} |-> bagOf(cf[w0.ents[CHOOSE i \in CE : e \in entOf(i)].n])]
 
-(* ----------------------------- expectation ----------------------------- *)
-World(p, vv, mem) == Run(Stmts(p), ValFn(p, vv), <<>>, mem)
 \* names some later statement consumes
 RECURSIVE RefsE(_)
 RefsE(e) == CASE e.k = "ref" -> {e.n}
@@ -89,92 +133,199 @@ RefsS(s) == CASE s.k \in {"int", "let", "expr", "prop"} -> RefsE(s.e)
               [] s.k = "place" -> RefsE(s.x) \cup RefsE(s.y)
               [] s.k \in {"func", "for"} -> (UNION {RefsS(s.body[i]) : i \in DOMAIN s.body}) \cup (IF s.k = "func" /\ "k" \in DOMAIN s.ret THEN RefsE(s.ret) ELSE {})
               [] OTHER -> {}
-ConsumedT == [p \in PIDs |-> UNION {RefsS(Stmts(p)[i]) : i \in DOMAIN Stmts(p)}]
+Consumed(ss) == UNION {RefsS(ss[i]) : i \in DOMAIN ss}
 \* named results to observe: top-level Signal/Bundle declarations nothing consumes
-OutNamesT == [p \in PIDs |-> {Stmts(p)[i].n : i \in {i \in DOMAIN Stmts(p) : Stmts(p)[i].k = "let"}} \ ConsumedT[p]]
+OutNames(ss) == {ss[i].n : i \in {i \in DOMAIN ss : ss[i].k = "let"}} \ Consumed(ss)
+OutNamesT == [p \in PIDs |-> OutNames(Stmts(p))]
+OutNames2T == [p \in PIDs |-> OutNames(StmtsOf(p, 2))]
+\* twin builds are compared on the results both programs export (or the explicit list `cmp`)
+CmpNamesT == [p \in PIDs |-> IF "cmp" \in DOMAIN Recs[p] THEN SeqSet(Recs[p].cmp)
+                             ELSE IF HasTwin(p) THEN OutNamesT[p] \cap OutNames2T[p] ELSE {}]
 
 (* ------------------------------ reporting ------------------------------ *)
 \* a clause that fails on a record matching an open known finding (KnownFindings.tla) is reported as KNOWN, not FAIL
 Fail(p, clause, info) ==
-  LET kf == KnownFinding(Stmts(p), clause) IN
-  IF kf # "" THEN PrintT(<<"KNOWN", Recs[p].id, clause, kf>>)
-  ELSE IF Strict THEN FALSE ELSE PrintT(<<"FAIL", Recs[p].id, clause, info>>)
+  IF ~Active(clause) THEN TRUE
+  ELSE LET kf == KnownFinding(Stmts(p), clause) IN
+       IF kf # "" THEN PrintT(<<"KNOWN", Recs[p].id, clause, kf>>)
+       ELSE IF Strict THEN FALSE ELSE PrintT(<<"FAIL", Recs[p].id, clause, info>>)
 Reserved == Wild \cup {"signal-W"}
 
-\* where named result n can be read: its anchor, or - when the producer is itself a constant combinator - that combinator
-AnchorsOf(p, n) == ByRole(U(p), "anchor", n)
-ConstsOf(p, n) == ByRole(U(p), "const", n) \cup ByRole(U(p), "input", n)
+\* where named result n can be read in unit u: its anchor, or - when the producer is itself a constant combinator - that combinator
+AnchorsOf(u, n) == ByRole(u, "anchor", n)
+ConstsOf(u, n) == ByRole(u, "const", n) \cup ByRole(u, "input", n)
+\* observation point of n in unit u: <<entity, isConst>> or <<0, FALSE>> when n is not (uniquely) exposed
+ObsPoint(u, n) == LET A == AnchorsOf(u, n)  K == ConstsOf(u, n) IN
+                  IF Cardinality(A) = 1 THEN <<CHOOSE e \in A : TRUE, FALSE>>
+                  ELSE IF A = {} /\ Cardinality(K) = 1 THEN <<CHOOSE e \in K : TRUE, TRUE>>
+                  ELSE <<0, FALSE>>
+ReadAt(u, pt, sig, o, inp) == IF sig \notin SigsT[u] THEN 0
+                              ELSE IF pt[2] THEN StatVal(u, pt[1], inp)[sig] ELSE ObsSig(u, pt[1], sig, o, inp)
+BagAt(u, pt, o, inp) == IF pt[2] THEN StatVal(u, pt[1], inp) ELSE ObsBag(u, pt[1], o, inp)
 
-CheckScalar(p, n, ev, e, isConst) ==
-  LET u == U(p)
-      lab == Desc(u, e).sig
+CheckScalar(p, k, n, ev, pt, o, inp) ==
+  LET u == UnitsOf(p)[k]
+      lab == Desc(u, pt[1]).sig
       sig == IF ev.free THEN lab ELSE ev.t
-      obs == IF isConst THEN (IF sig \in SigsT[u] THEN StatVal(u, e, InpOf(p, v_val))[sig] ELSE 0)
-             ELSE (IF sig \in SigsT[u] THEN ObsSig(u, e, sig, v_out, InpOf(p, v_val)) ELSE 0)
-  IN /\ (obs = ev.v \/ Fail(p, "C01_value", [name |-> n, val |-> v_val, sig |-> sig, observed |-> obs, expected |-> ev.v]))
-     /\ (ev.free \/ lab = ev.t \/ Fail(p, "C01_type", [name |-> n, label |-> lab, expected |-> ev.t]))
-     /\ (~ev.free \/ (lab \notin Reserved /\ lab # "") \/ Fail(p, "C13_reserved", [name |-> n, label |-> lab]))
+      obs == ReadAt(u, pt, sig, o, inp)
+  IN /\ (obs = ev.v \/ Fail(p, "C01_value", [unit |-> k, name |-> n, val |-> v_val, sig |-> sig, observed |-> obs, expected |-> ev.v]))
+     /\ (ev.free \/ lab = ev.t \/ Fail(p, "C01_type", [unit |-> k, name |-> n, label |-> lab, expected |-> ev.t]))
+     /\ (~ev.free \/ (lab \notin Reserved /\ lab # "") \/ Fail(p, "C13_reserved", [unit |-> k, name |-> n, label |-> lab]))
 
-CheckBundle(p, n, ev, e) ==
-  LET u == U(p)
-      obs == ObsBag(u, e, v_out, InpOf(p, v_val))
+CheckBundle(p, k, n, ev, pt, o, inp) ==
+  LET u == UnitsOf(p)[k]
+      obs == BagAt(u, pt, o, inp)
       bad == {s \in SigsT[u] : obs[s] # BunGet(ev.b, s)} \cup {s \in BunNZ(ev.b) : s \notin SigsT[u]}
-  IN bad = {} \/ Fail(p, "C02_bag", [name |-> n, val |-> v_val, signals |-> bad,
+  IN bad = {} \/ Fail(p, "C02_bag", [unit |-> k, name |-> n, val |-> v_val, signals |-> bad,
                                       observed |-> [s \in bad \cap SigsT[u] |-> obs[s]], expected |-> [s \in bad |-> BunGet(ev.b, s)]])
 
-CheckName(p, n, w) ==
+CheckName(p, k, n, w, o, inp) ==
   LET ev == w.named[n]
-      A == AnchorsOf(p, n)
-      K == ConstsOf(p, n)
-  IN IF Cardinality(A) = 1
-     THEN LET e == CHOOSE e \in A : TRUE IN IF ev.kind = "bun" THEN CheckBundle(p, n, ev, e) ELSE CheckScalar(p, n, ev, e, FALSE)
-     ELSE IF A = {} /\ Cardinality(K) = 1 /\ ev.kind = "sig"
-     THEN CheckScalar(p, n, ev, CHOOSE e \in K : TRUE, TRUE)
-     ELSE Fail(p, "C20_exposed", [name |-> n, anchors |-> Cardinality(A), consts |-> Cardinality(K)])
+      u == UnitsOf(p)[k]
+      pt == ObsPoint(u, n)
+  IN IF pt[1] = 0
+     THEN Fail(p, "C20_exposed", [unit |-> k, name |-> n, anchors |-> Cardinality(AnchorsOf(u, n)), consts |-> Cardinality(ConstsOf(u, n))])
+     ELSE IF ev.kind = "bun" THEN CheckBundle(p, k, n, ev, pt, o, inp)
+     ELSE IF ev.kind = "sig" THEN CheckScalar(p, k, n, ev, pt, o, inp)
+     ELSE TRUE
+
+\* entity.enable = expr : the placed entity's circuit condition is true exactly when expr is positive
+CheckEnable(p, k, en, w, o, inp) ==
+  LET u == UnitsOf(p)[k]
+      ent == w.ents[en.ent]
+      E == EntAt(u, ent)
+  IN IF Cardinality(E) # 1 THEN Fail(p, "C06_entity", [unit |-> k, entity |-> ent.n, found |-> Cardinality(E)])
+     ELSE LET e == CHOOSE e \in E : TRUE IN
+          IF NCondT[u][e] = <<>> \/ ~NCondT[u][e].on
+          THEN Fail(p, "C06_condition", [unit |-> k, entity |-> ent.n, why |-> "no enabled circuit condition"])
+          ELSE (Enabled(u, e, o, inp) = (en.v > 0))
+               \/ Fail(p, "C06_enable", [unit |-> k, entity |-> ent.n, val |-> v_val, enabled |-> Enabled(u, e, o, inp), expr |-> en.v])
+
+\* Refine2: both builds expose the same value for every compared name (each read on its own label when the type is free)
+CheckTwin(p, n, w1, o1, inp1, o2, inp2) ==
+  LET u1 == UnitsOf(p)[1]  u2 == UnitsOf(p)[2]
+      p1 == ObsPoint(u1, n)  p2 == ObsPoint(u2, n)
+      ev == w1.named[n]
+  IN IF p1[1] = 0 \/ p2[1] = 0 THEN TRUE      \* exposure is C20's business (DESIGN 6.7)
+     ELSE IF ev.kind = "bun"
+     THEN LET b1 == BagAt(u1, p1, o1, inp1)  b2 == BagAt(u2, p2, o2, inp2)
+              S == SigsT[u1] \cup SigsT[u2]
+              g(b, u, s) == IF s \in SigsT[u] THEN b[s] ELSE 0
+              bad == {s \in S : g(b1, u1, s) # g(b2, u2, s)}
+          IN bad = {} \/ Fail(p, "R2_equal", [name |-> n, val |-> v_val, signals |-> bad])
+     ELSE LET s1 == IF ev.free THEN Desc(u1, p1[1]).sig ELSE ev.t
+              s2 == IF ev.free THEN Desc(u2, p2[1]).sig ELSE ev.t
+              x1 == ReadAt(u1, p1, s1, o1, inp1)  x2 == ReadAt(u2, p2, s2, o2, inp2)
+          IN x1 = x2 \/ Fail(p, "R2_equal", [name |-> n, val |-> v_val, first |-> x1, second |-> x2])
 
 (* ------------------------------ behaviour ------------------------------ *)
-MaxTick(p) == Len(Ents(U(p))) + 3
-\* registers: p = settled states checked, 1000+p = initial valuations, 2000+p = valuations outside Defined,
-\*            3000+p = settled states where the circuit sits in an unknown corner (not judged)
+MaxTick(p) == LET n == Len(Ents(U(p))) + (IF HasTwin(p) THEN Len(Ents(Recs[p].u2)) ELSE 0) IN n + 3
+\* registers: k*1000+p.  0 settled states judged, 1 initial valuations, 2 valuations outside Defined,
+\* 3 settled states where a circuit sits in an unknown corner, 4/5 non-triviality, 6 ambiguous (raced) states, 7 input changes
 Reg(k, p) == k * 1000 + p
 Bump(k, p) == TLCSet(Reg(k, p), TLCGet(Reg(k, p)) + 1)
-ASSUME \A p \in PIDs : \A k \in 0..5 : TLCSet(Reg(k, p), 0)
-\* registers 4/5: has this record shown at least two distinct expected observations? (non-triviality, evidence only)
+ASSUME \A p \in PIDs : \A k \in 0..7 : TLCSet(Reg(k, p), 0)
 Digest(w) == LET F[i \in 0..Len(w.order)] == IF i = 0 THEN 0 ELSE
                    LET x == w.named[w.order[i]] IN
                    Add32(Mul32(F[i-1], 31), IF x.kind = "bun" THEN FoldSet(LAMBDA t, acc : Add32(acc, x.b[t]), 0, DOMAIN x.b) ELSE x.v)
-             IN F[Len(w.order)]
+                 G[i \in 0..Len(w.enables)] == IF i = 0 THEN F[Len(w.order)] ELSE Add32(Mul32(G[i-1], 31), IF w.enables[i].v > 0 THEN 1 ELSE 0)
+             IN G[Len(w.enables)]
 Track(p, d) == IF TLCGet(Reg(5, p)) = 0 THEN TLCSet(Reg(4, p), d) /\ TLCSet(Reg(5, p), 1)
                ELSE IF TLCGet(Reg(5, p)) = 1 /\ TLCGet(Reg(4, p)) # d THEN TLCSet(Reg(5, p), 2) ELSE TRUE
+
+(* abstract memory machine, stepped at settle granularity (DESIGN 3.3, 6.1)                              *)
+(* v_mem : cell instance -> [v, on, amb]; amb = the last input change raced data against enable (or set *)
+(* against reset): the hardware result depends on path latencies, so the cell is not judged in this      *)
+(* state and is re-read from the circuit (through a direct reader) before the next step.                 *)
+MemOf(am) == [i \in DOMAIN am |-> [v |-> am[i].v, on |-> am[i].on]]
+RECURSIVE FixMem(_, _, _, _)
+FixMem(p, vv, mem, fuel) ==
+  LET w == World(p, 1, vv, mem)
+      nxt == [i \in 1..w.ncell |-> IF i \in DOMAIN w.memN THEN w.memN[i] ELSE MemGet(mem, i)]
+      same == \A i \in 1..w.ncell : MemGet(mem, i) = nxt[i]
+  IN IF fuel = 0 \/ same THEN [mem |-> nxt, ok |-> same, info |-> w.info]
+     ELSE FixMem(p, vv, nxt, fuel - 1)
+\* did this change race? gated cell: enable dropped while the data changed; latch: both were active, neither is now
+Raced(old, new, cell) ==
+  IF cell \notin DOMAIN old \/ cell \notin DOMAIN new THEN FALSE
+  ELSE IF new[cell].mode \in {"plain", "when"} THEN old[cell].c > 0 /\ new[cell].c <= 0 /\ old[cell].v # new[cell].v
+  ELSE old[cell].sa /\ old[cell].ra /\ ~new[cell].sa /\ ~new[cell].ra
+AbsStep(p, vvOld, vvNew, base) ==
+  LET old == World(p, 1, vvOld, base).info
+      fx == FixMem(p, vvNew, base, 4)
+  IN [mem |-> [i \in DOMAIN fx.mem |-> [v |-> fx.mem[i].v, on |-> fx.mem[i].on, amb |-> Raced(old, fx.info, i)]], ok |-> fx.ok]
+AbsInit(p, vv) ==
+  LET fx == FixMem(p, vv, <<>>, 4)
+  IN [mem |-> [i \in DOMAIN fx.mem |-> [v |-> fx.mem[i].v, on |-> fx.mem[i].on, amb |-> FALSE]], ok |-> fx.ok]
+\* a direct reader of cell i: a top-level `Signal n = m.read();` nothing consumes  (used to re-read a raced cell)
+MemNamesT == [p \in PIDs |-> SelectSeq(Stmts(p), LAMBDA s : s.k = "mem")]
+DirectReader(p, cell) ==
+  LET ss == Stmts(p)
+      R == {i \in DOMAIN ss : ss[i].k = "let" /\ ss[i].e.k = "read" /\ ss[i].n \in OutNamesT[p]
+                              /\ cell <= Len(MemNamesT[p]) /\ MemNamesT[p][cell].n = ss[i].e.m}
+  IN IF R = {} THEN "" ELSE ss[CHOOSE i \in R : TRUE].n
+Resync(p, am, o, inp) ==
+  [i \in DOMAIN am |->
+     IF ~am[i].amb THEN am[i]
+     ELSE LET n == DirectReader(p, i)
+              pt == IF n = "" THEN <<0, FALSE>> ELSE ObsPoint(U(p), n)
+          IN IF pt[1] = 0 THEN am[i]
+             ELSE LET x == ReadAt(U(p), pt, Desc(U(p), pt[1]).sig, o, inp) IN [v |-> x, on |-> (x # 0), amb |-> FALSE]]
+CanResync(p, am) == \A i \in DOMAIN am : ~am[i].amb \/ (DirectReader(p, i) # "" /\ ObsPoint(U(p), DirectReader(p, i))[1] # 0)
 
 \* all valuations: one initial state per (record, valuation)
 RECURSIVE Prod(_, _)
 Prod(p, i) == IF i > NIn(p) THEN {<<>>} ELSE {<<x>> \o r : x \in DomT[p][i], r \in Prod(p, i + 1)}
+InitOuts(p) == [k \in DOMAIN UnitsOf(p) |-> InitOut(UnitsOf(p)[k])]
 Init == /\ v_pid \in PIDs
         /\ v_val \in Prod(v_pid, 1)
-        /\ v_out = InitOut(U(v_pid))
-        /\ v_tick = 0 /\ v_settled = FALSE /\ v_mem = <<>>
+        /\ v_out = InitOuts(v_pid)
+        /\ v_tick = 0 /\ v_settled = FALSE
+        /\ LET a == AbsInit(v_pid, v_val) IN v_mem = a.mem /\ v_lost = ~a.ok
 Tick == /\ ~v_settled /\ v_tick < MaxTick(v_pid)
-        /\ v_out' = Step(U(v_pid), v_out, InpOf(v_pid, v_val))
+        /\ v_out' = [k \in DOMAIN v_out |-> Step(UnitsOf(v_pid)[k], v_out[k], InpOf(v_pid, k, v_val))]
         /\ v_settled' = (v_out' = v_out)
         /\ v_tick' = v_tick + 1
-        /\ UNCHANGED <<v_pid, v_val, v_mem>>
-Next == Tick
+        /\ UNCHANGED <<v_pid, v_val, v_mem, v_lost>>
+ChangeInput ==
+  /\ v_settled /\ ~v_lost /\ Mode(v_pid) = "hist"
+  /\ CanResync(v_pid, v_mem)
+  /\ \E i \in 1..NIn(v_pid) : \E x \in DomT[v_pid][i] \ {v_val[i]} :
+       LET nv == [v_val EXCEPT ![i] = x]
+           base == MemOf(Resync(v_pid, v_mem, v_out[1], InpOf(v_pid, 1, v_val)))
+           a == AbsStep(v_pid, v_val, nv, base)
+       IN /\ v_val' = nv
+          /\ v_mem' = a.mem
+          /\ v_lost' = ~a.ok
+  /\ v_tick' = 0 /\ v_settled' = FALSE
+  /\ UNCHANGED <<v_pid, v_out>>
+Next == Tick \/ ChangeInput
 Spec == Init /\ [][Next]_vars
 
 (* ------------------------------ monitors ------------------------------- *)
-Supported(p) == UnsupT[U(p)] = {} /\ WiresOK(U(p))
-CountInit == v_tick = 0 => Bump(1, v_pid)
+Supported(p) == \A k \in DOMAIN UnitsOf(p) : UnsupT[UnitsOf(p)[k]] = {} /\ WiresOK(UnitsOf(p)[k])
+CountInit == (v_tick = 0 /\ ~v_settled) => Bump(1, v_pid)
+AnyAmb == \E i \in DOMAIN v_mem : v_mem[i].amb
+JudgeUnit(p, k, w) ==
+  LET o == v_out[k]  inp == InpOf(p, k, v_val) IN
+  /\ \A n \in OutNames(StmtsOf(p, k)) : CheckName(p, k, n, w, o, inp)
+  /\ \A j \in DOMAIN w.enables : CheckEnable(p, k, w.enables[j], w, o, inp)
 Judge ==
-  (v_settled /\ Supported(v_pid)) =>
-     LET w == World(v_pid, v_val, v_mem) IN
-     IF w.undef THEN Bump(2, v_pid)
-     ELSE IF AnyUndef(U(v_pid), v_out, InpOf(v_pid, v_val)) THEN Bump(3, v_pid)
-     ELSE /\ Bump(0, v_pid)
-          /\ Track(v_pid, Digest(w))
-          /\ \A n \in OutNamesT[v_pid] : CheckName(v_pid, n, w)
+  (v_settled /\ Supported(v_pid) /\ ~v_lost) =>
+     LET p == v_pid
+         w == World(p, 1, v_val, MemOf(v_mem))
+     IN IF w.undef THEN Bump(2, p)
+        ELSE IF \E k \in DOMAIN v_out : AnyUndef(UnitsOf(p)[k], v_out[k], InpOf(p, k, v_val)) THEN Bump(3, p)
+        ELSE IF AnyAmb THEN Bump(6, p)
+        ELSE /\ Bump(0, p)
+             /\ Track(p, Digest(w))
+             /\ (("r1" \in DOMAIN Recs[p] /\ ~Recs[p].r1) \/ JudgeUnit(p, 1, w))
+             /\ (~HasTwin(p) \/
+                   /\ ("r1both" \notin DOMAIN Recs[p] \/ JudgeUnit(p, 2, World(p, 2, v_val, MemOf(v_mem))))
+                   /\ \A n \in CmpNamesT[p] : CheckTwin(p, n, w, v_out[1], InpOf(p, 1, v_val), v_out[2], InpOf(p, 2, v_val)))
 Settles == (v_tick = MaxTick(v_pid) /\ ~v_settled) => Fail(v_pid, "C01_settles", [val |-> v_val, ticks |-> v_tick])
 
 Summary == \A p \in PIDs : PrintT(<<"SUMMARY", Recs[p].id, TLCGet(Reg(1, p)), TLCGet(Reg(0, p)), TLCGet(Reg(2, p)), TLCGet(Reg(3, p)),
-                                    Cardinality(OutNamesT[p]), UnsupT[U(p)], TLCGet(Reg(5, p))>>)
+                                    Cardinality(OutNamesT[p]), UNION {UnsupT[UnitsOf(p)[k]] : k \in DOMAIN UnitsOf(p)},
+                                    TLCGet(Reg(5, p)), TLCGet(Reg(6, p))>>)
 =============================================================================
